@@ -173,13 +173,15 @@ def main(mod, tier):
         caps_seen.extend(r.get("caps_hit", []))
         for f in r.get("findings", []):
             by_key.setdefault(f["key"], []).append((case, f))
-        if os.environ.get("VERIF_FAILFAST") and any(match_known(prop, f["key"], known) is None for f in r.get("findings", [])):
-            # detection runs (mutation campaign, seeded changes): the first violation decides; never used by the
-            # registered commands, whose evidence must describe the complete enumeration
-            caps_seen.append("VERIF_FAILFAST: stopped at the first violation")
-            if hasattr(stream, "close"):
-                stream.close()
-            break
+        if os.environ.get("VERIF_FAILFAST_INNER"):
+            # detection runs (mutation campaign, seeded changes; see fvmc/run.py): the first violation decides.  It is
+            # printed at once; the supervising parent process then stops this process group.  Never used by the
+            # registered commands, whose evidence must describe the complete enumeration.
+            for f in r.get("findings", []):
+                if match_known(prop, f["key"], known) is None:
+                    path = write_replay(prop, f["key"], case, f)
+                    print("VIOLATION property=%s replay=%s key=%s cases=1 :: %s (fail-fast detection run: enumeration stopped here, replay not re-executed)"
+                          % (prop, path, f["key"], f.get("msg", "")), flush=True)
 
     known_hits, violations = [], []
     for key, lst in by_key.items():
